@@ -142,10 +142,16 @@ def put_state(z, names, texts, states, file_states, index_states, hash_states):
     (z / ".zorg" / "next_ids.json").write_text("{}")
 
 
-def judge(w, originals, cmd, rels, strip_zids):
-    """'' or what is wrong in directory w after the re-run (compared with a fresh `db create` on a copy)"""
+def judge(w, originals, cmd, rels, strip_zids, uninterrupted=None, mask=None):
+    """'' or what is wrong in directory w after the re-run (compared with a fresh `db create` on a copy and, if given, with
+    the files an uninterrupted run leaves)"""
     w = pathlib.Path(w)
     fl, idx = files(w), views(w)
+    if uninterrupted is not None:
+        for n in (sorted(set(fl) | set(uninterrupted)) if (cmd == "create" or not rels) else list(rels)):
+            a, b = fl.get(n), uninterrupted.get(n)
+            if (a is None) != (b is None) or (a is not None and mask(a) != mask(b)):
+                return "page %s differs from what an uninterrupted run leaves: %r vs %r" % (n, a, b)
     f = pathlib.Path(tempfile.mkdtemp(prefix="c13f"))
     try:
         shutil.copytree(w, f, dirs_exist_ok=True)
@@ -182,10 +188,32 @@ def judge(w, originals, cmd, rels, strip_zids):
     return ""
 
 
-def schedule(names, texts, states, tables, cmd, rels, k, torn, strip_zids):
+_UNINTERRUPTED = {}
+
+
+def uninterrupted_files(names, texts, states, tables, cmd, rels):
+    """the pages an uninterrupted real run leaves from this state (cached: the schedules of one state come in a row)"""
+    key = (tuple(states), cmd, tuple(rels))
+    if key not in _UNINTERRUPTED:
+        _UNINTERRUPTED.clear()
+        base = pathlib.Path(tempfile.mkdtemp(prefix="c13u"))
+        try:
+            z = base / "z"
+            z.mkdir()
+            put_state(z, names, texts, states, *tables)
+            crashed, _log, err = run(z, cmd, rels)
+            assert not crashed and err is None, err
+            _UNINTERRUPTED[key] = files(z)
+        finally:
+            shutil.rmtree(base, ignore_errors=True)
+    return _UNINTERRUPTED[key]
+
+
+def schedule(names, texts, states, tables, cmd, rels, k, torn, strip_zids, mask=None):
     """the whole obligation for one schedule on a fresh real directory: '' or what is wrong"""
     base = pathlib.Path(tempfile.mkdtemp(prefix="c13r"))
     try:
+        unint = uninterrupted_files(names, texts, states, tables, cmd, rels) if mask is not None else None
         z = base / "z"
         z.mkdir()
         put_state(z, names, texts, states, *tables)
@@ -196,7 +224,7 @@ def schedule(names, texts, states, tables, cmd, rels, k, torn, strip_zids):
         crashed2, _log2, err2 = run(z, cmd, rels)
         if err2 is not None:
             return "the re-run fails: " + err2
-        return judge(z, originals, cmd, rels, strip_zids)
+        return judge(z, originals, cmd, rels, strip_zids, unint, mask)
     finally:
         shutil.rmtree(base, ignore_errors=True)
         _cleanup()
